@@ -300,6 +300,20 @@ func (g *Gen) Alts(t reflect.Type, budget int, substitute bool) []reflect.Value 
 			}
 			out = append(out, s)
 		}
+		// vectors inside the items of a vector: three items, each of whose own vector fields (to depth 3) has
+		// three items too (an encoder or decoder that keeps per-vector state in one place mixes them up)
+		if ek := t.Elem().Kind(); (ek == reflect.Ptr || ek == reflect.Interface) && len(out) >= 4 && out[3].Len() == 3 {
+			vv := Clone(out[3])
+			found := false
+			for i := 0; i < vv.Len(); i++ {
+				if g.growVectors(vv.Index(i), 3, 3) {
+					found = true
+				}
+			}
+			if found {
+				out = append(out, vv)
+			}
+		}
 		out = append(out, reflect.Zero(t)) // nil vector
 		return out
 	case reflect.Ptr:
@@ -389,6 +403,68 @@ func perturb(v reflect.Value, k int) {
 			}
 		}
 	}
+}
+
+// growVectors gives every vector field reachable from v (through pointers, interfaces and struct fields, to the
+// given depth) n items that differ from one another; it reports whether there was any.
+func (g *Gen) growVectors(v reflect.Value, n, depth int) bool {
+	for v.Kind() == reflect.Ptr || v.Kind() == reflect.Interface {
+		if v.IsNil() {
+			return false
+		}
+		v = v.Elem()
+	}
+	if v.Kind() != reflect.Struct || depth == 0 {
+		return false
+	}
+	found := false
+	for i := 0; i < v.NumField(); i++ {
+		f := v.Field(i)
+		sf := v.Type().Field(i)
+		if sf.PkgPath != "" || !f.CanSet() || ParseTag(sf).Ignore {
+			continue
+		}
+		switch f.Kind() {
+		case reflect.Slice:
+			et := f.Type().Elem()
+			if et.Kind() == reflect.Uint8 {
+				continue
+			}
+			var seed reflect.Value
+			if f.Len() > 0 {
+				seed = f.Index(0)
+			} else if alts := g.Alts(et, 1, false); len(alts) > 0 {
+				seed = alts[0]
+			} else {
+				continue
+			}
+			ns := reflect.MakeSlice(f.Type(), n, n)
+			for k := 0; k < n; k++ {
+				el := Clone(seed)
+				switch el.Kind() {
+				case reflect.Int32, reflect.Int64:
+					x := reflect.New(et).Elem()
+					x.SetInt(el.Int() + int64(1000*k))
+					el = x
+				case reflect.String:
+					x := reflect.New(et).Elem()
+					x.SetString(el.String() + string(rune('a'+k)))
+					el = x
+				default:
+					perturb(el, k)
+					g.growVectors(el, n, depth-1)
+				}
+				ns.Index(k).Set(el)
+			}
+			f.Set(ns)
+			found = true
+		case reflect.Ptr, reflect.Interface, reflect.Struct:
+			if !isBig(f.Type()) && g.growVectors(f, n, depth-1) {
+				found = true
+			}
+		}
+	}
+	return found
 }
 
 func (g *Gen) entryHeight(e *Entry) int {
